@@ -92,17 +92,27 @@ class State:
         self.hits.append((fn, kw, token))
         return token
 
-    def make_probe(self, fn, names, dflts):
+    def make_probe(self, fn, names, dflts, how="def"):
+        """how: "def" plain function | "method" bound method | "object" instance with __call__"""
         n, m = len(names), len(dflts)
         dvals = [mkval(v, self.mode) for v in dflts]
         params = [names[i] if i < n - m else f"{names[i]}=_D[{i - (n - m)}]" for i in range(n)]
         body = ", ".join(f"{p}={p}" for p in names)
-        src = f"def probe_{fn}({', '.join(params)}):\n    return _hit({fn}, dict({body}))\n"
         env = {"_D": dvals, "_hit": self._hit}
-        exec(src, env)
-        f = env[f"probe_{fn}"]
+        if how == "def":
+            src = f"def probe_{fn}({', '.join(params)}):\n    return _hit({fn}, dict({body}))\n"
+            exec(src, env)
+            f = plain = env[f"probe_{fn}"]
+        else:
+            meth = f"probe_{fn}" if how == "method" else "__call__"
+            src = (f"class Holder_{fn}:\n    __name__ = 'probe_{fn}'\n"
+                   f"    def {meth}({', '.join(['self'] + params)}):\n        return _hit({fn}, dict({body}))\n")
+            exec(src, env)
+            holder = env[f"Holder_{fn}"]()
+            plain = getattr(type(holder), meth)
+            f = getattr(holder, meth) if how == "method" else holder
         self.sig[fn] = (list(names), list(dflts))
-        self.probe[fn] = f
+        self.probe[fn] = plain
         return f
 
     def fnid(self, x):
@@ -240,8 +250,8 @@ def run_op(st, op, idx, problems):
             out = f"U{len(st.ud) - 1}"
             before[f"user dict {len(st.ud) - 1}"] = [(k, showval(v)) for k, v in st.ud[-1].items()]
         elif kind == "wf":
-            _, fn, names, dflts = op
-            f = st.make_probe(fn, names, dflts)
+            _, fn, names, dflts = op[:4]
+            f = st.make_probe(fn, names, dflts, op[4] if len(op) > 4 else "def")
             before[f"user function {fn}"] = st.snapshot()[f"user function {fn}"]
             w = st.cls(f)
             st.ws.append(w); st.origin[len(st.ws) - 1] = ("wf", None)
@@ -298,6 +308,8 @@ def run_op(st, op, idx, problems):
             if env_snapshot(env_obj) != env_before:
                 problems.append(f"{where}: the mapping/Points passed in was changed: {env_before} -> {env_snapshot(env_obj)}")
             out = judge_eval(st, w, kind, op, env_map, defaults_before, exc, res, new_hits, problems, where)
+        elif kind == "cv":
+            out = run_vectorized(st, op, hits0, problems, where)
         elif kind == "sd":
             w = st.ws[op[1]]
             kw = {k: mkval(v, st.mode) for k, v in op[2]}
@@ -349,6 +361,77 @@ def run_op(st, op, idx, problems):
         for k, v in before.items():
             if k.startswith("user function") and after.get(k) != v:
                 problems.append(f"{where}: {kind} changed {k}")
+    return out
+
+
+def batched_value(v, n):
+    import torch
+    return torch.tensor([[float(v * 1000 + i)] for i in range(n)])
+
+
+def show_arg(t):
+    """canonical text of what one invocation received for one parameter (driver: showArg)"""
+    try:
+        f = t.flatten()
+        x = int(f[0].item())
+        if t.dim() == 1:                                  # one row of an (L, 1) value
+            return f"r{x if x >= 1000 else x * 1000}"
+        return f"w{x // 1000 if x >= 1000 else x}x{t.shape[0]}"
+    except Exception:
+        return f"<{type(t).__name__}>"
+
+
+def run_vectorized(st, op, hits0, problems, where):
+    """u(env, vectorize=True): apply_to_batch.  Oracle: as many invocations as the longest value has rows,
+    invocation i receives, under each declared name, row i of a value of that length and the whole value
+    otherwise; the list of the function values comes back"""
+    w = st.ws[op[1]]
+    lens = dict((a, b) for a, b in op[3])
+    env = {k: batched_value(v, lens[v]) for k, v in op[2]}
+    defaults_before = dict(w.defaults)
+    env_before = env_snapshot(env)
+    exc = None
+    try:
+        res = w(env, vectorize=True)
+    except Exception as e:
+        exc, res = e, None
+    new_hits = st.hits[hits0:]
+    if env_snapshot(env) != env_before:
+        problems.append(f"{where}: the mapping passed in was changed")
+    P = declared(st, w)
+    # the property, evaluated directly
+    vals, missing = {}, None
+    for p in P:
+        if p in env:
+            vals[p] = env[p]
+        elif p in defaults_before:
+            vals[p] = defaults_before[p]
+        else:
+            missing = p
+            break
+    if exc is not None:
+        if isinstance(exc, AssertionError):
+            out = "e:missing"
+        elif isinstance(exc, ValueError) and not P:
+            out = "e:valueerror"        # max() of an empty sequence: a function without parameters (as coded)
+        else:
+            out = f"e:raised:{type(exc).__name__}"
+        if missing is None and P:
+            problems.append(f"{where}: every required name is present but the vectorized call raised {type(exc).__name__}: {exc}")
+        if new_hits and missing is not None:
+            problems.append(f"{where}: required name {missing!r} is missing but the user function was invoked")
+        return out
+    if missing is not None:
+        problems.append(f"{where}: required name {missing!r} is neither supplied nor a default but the vectorized call returned")
+    text = "|".join(",".join(f"{p}={show_arg(kw[p])}" for p in kw) for _, kw, _ in new_hits)
+    out = f"b{st.fnid(w.fun)}/{len(new_hits)}[{text}]"
+    if missing is None:
+        B = max(len(v) for v in vals.values())
+        want = "|".join(",".join(f"{p}={show_arg(vals[p][i] if len(vals[p]) == B else vals[p])}" for p in P) for i in range(B))
+        if len(new_hits) != B or text != want or any(list(kw) != P for _, kw, _ in new_hits):
+            problems.append(f"{where}: vectorized call over {B} rows: invocations received [{text}], row-wise by name they must receive [{want}]")
+        if not (isinstance(res, list) and len(res) == len(new_hits) and all(a is h[2] for a, h in zip(res, new_hits))):
+            problems.append(f"{where}: the vectorized call did not return the list of the function values")
     return out
 
 
@@ -454,10 +537,15 @@ class Gen:
             kinds = ["wf"] * 6 + ["wc", "we", "nd"]
         else:
             kinds = ["wf"] * 2 + ["wc", "we", "nd", "rw", "dc", "dc"] + ["ca"] * 6 + ["pe"] * 5 + ["sd"] * 3 + ["rd"]
+            if self.mode == "tensor" and st.cls.__name__ == "UserFunction":
+                kinds += ["cv"] * 3
         kind = rng.choice(kinds)
+        if kind == "cv" and not callable(st.ws[-1].fun) and all(not callable(w.fun) for w in st.ws):
+            kind = "ca"
         if kind == "wf":
             names, dflts = self.signature()
-            return ["wf", next(self.fn), names, dflts]
+            how = rng.choice(["def"] * 6 + ["method", "object"])
+            return ["wf", next(self.fn), names, dflts] + ([how] if how != "def" else [])
         if kind == "wc":
             return ["wc", next(self.fn)]
         if kind == "nd":
@@ -469,6 +557,9 @@ class Gen:
             return ["we", next(self.fn), names, j]
         r = rng.randrange(nw) if rng.random() < 0.5 else nw - 1 - min(nw - 1, rng.choice([0, 0, 1, 2]))
         w = st.ws[r]
+        if kind == "cv" and not callable(w.fun):
+            r = next(i for i, x in enumerate(st.ws) if callable(x.fun))
+            w = st.ws[r]
         if kind == "rw":
             return ["rw", r, rng.choice(["wrap", "wrap", "copy"])]
         if kind == "dc":
@@ -478,6 +569,15 @@ class Gen:
             if self.mode == "points" and env and rng.random() < 0.7:
                 return ["ca", r, env, "points"]
             return ["ca", r, env]
+        if kind == "cv":
+            env = self.env_for(w, cover=0.9)
+            B = rng.choice([1, 2, 3, 5])
+            lens = [[v, rng.choice([B, B, 1, rng.randint(1, B)])] for _, v in env]
+            try:
+                lens += [[vid(v), 1] for v in w.defaults.values() if vid(v) is not None]
+            except Exception:
+                pass
+            return ["cv", r, env, lens]
         if kind == "pe":
             # bind a strict part of the required names most of the time, so that a wrapper comes back
             try:
@@ -548,6 +648,8 @@ def op_line(op):
         return f"dc {op[1]}"
     if k in ("ca", "pe", "sd"):
         return f"{k} {op[1]} {d(op[2])}"
+    if k == "cv":
+        return f"cv {op[1]} {d(op[2])} {d(op[3])}"
     if k == "rd":
         return f"rd {op[1]} {common.lst(op[2])}"
     raise common.HarnessTrouble(f"unknown op {op}")
@@ -558,6 +660,13 @@ def model_line(case):
 
 
 CORPUS = [
+    # vectorize=True: row i of every batch-length value goes to invocation i, other values are passed whole
+    dict(cls="UserFunction", mode="tensor", ops=[["wf", 0, ["a", "b", "c"], [11]], ["cv", 0, [["b", 6], ["a", 5]], [[5, 3], [6, 1], [11, 1]]],
+                                                 ["cv", 0, [["a", 7], ["c", 8], ["b", 9]], [[7, 2], [8, 2], [9, 2]]], ["cv", 0, [["a", 5]], [[5, 2]]],
+                                                 ["wf", 1, [], []], ["cv", 1, [], []]]),
+    # bound methods and callable objects: the bound first parameter is not an argument of the call
+    dict(cls="UserFunction", mode="int", ops=[["wf", 0, ["a", "b"], [2], "method"], ["ca", 0, [["a", 1]]], ["wf", 1, ["a", "b"], [5], "object"],
+                                              ["ca", 1, [["b", 3], ["a", 4]]], ["pe", 0, [["b", 6]]], ["ca", 2, [["a", 7]]]]),
     # shared `defaults={}` of the constructor (pinned snapshot): explicit args, set_default, then any wrap
     dict(cls="UserFunction", mode="int", ops=[["we", 0, ["x"], -1], ["sd", 0, [["x", 1]]], ["wf", 1, ["y"], []], ["ca", 1, [["y", 2]]]]),
     dict(cls="DomainUserFunction", mode="tensor", ops=[["we", 0, ["x"], -1], ["sd", 0, [["x", 1]]], ["wc", 1], ["wf", 2, ["y", "z"], [3]], ["ca", 2, [["y", 2]]]]),
@@ -597,13 +706,16 @@ def classify(rep, case, lines):
     for op, l in zip(case["ops"], lines):
         rep.count("op:" + op[0])
         out = l.split(" # ")[0]
-        tag = out[0] if out[0] in "wvkuU" else out
-        if op[0] in ("ca", "pe"):
-            rep.count(f"{op[0]}->" + {"w": "wrapper", "v": "value", "k": "constant"}.get(tag, tag))
+        tag = out[0] if out[0] in "wvkuUb" else out
+        if op[0] in ("ca", "pe", "cv"):
+            rep.count(f"{op[0]}->" + {"w": "wrapper", "v": "value", "k": "constant", "b": "batch"}.get(tag, tag))
+        if op[0] == "cv" and tag == "b":
+            rep.count("vectorized batch size " + out.split("/")[1].split("[")[0])
         if op[0] == "ca" and len(op) > 3:
             rep.count("call with Points")
         if op[0] == "wf":
             rep.count(f"signature n={len(op[2])} defaults={len(op[3])}")
+            rep.count("callable kind:" + (op[4] if len(op) > 4 else "def"))
         if op[0] == "rd" and out != "u":
             rep.count("remove_default KeyError")
     rep.count(f"class:{case['cls']}")
@@ -672,7 +784,7 @@ def shrink(case, msg):
         return case
     i = len(ops) - 2
     while i >= 0:
-        if ops[i][0] in ("ca", "sd", "rd"):      # removing them does not renumber wrappers or dicts
+        if ops[i][0] in ("ca", "cv", "sd", "rd"):      # removing them does not renumber wrappers or dicts
             cand = ops[:i] + ops[i + 1:]
             if still_fails(cand):
                 ops = cand
